@@ -43,6 +43,8 @@ def generate(rng, tier):
             cases.append(sc.gen_ring(rng))
     for _ in range(30 if tier == "quick" else 800):
         cases.append(sc.gen_sparse(rng))
+    for _ in range(10 if tier == "quick" else 200):
+        cases.append(sc.gen_ctrl_step(rng))   # step switched from outside (monitor only)
     # finam's own components with timedelta / calendar steps (monitor only)
     for _ in range(16 if tier == "quick" else 300):
         cases.append(bf.gen_builtin(rng))
@@ -52,6 +54,8 @@ def generate(rng, tier):
 def monitor(case, obs):
     if "builtin" in case:
         return bf.monitor_builtin(case, obs)
+    if sc.has_ctrl(case):
+        return c01.monitor(case, obs)   # the announced time is the time of the update: no pull beyond what is published
     comps = case["comps"]
     if obs["phase"] != "run":
         return f"connect phase failed with {obs['outcome']}"
@@ -104,7 +108,7 @@ classifiers = c01.classifiers
 
 
 def model_applies(case):
-    return "builtin" not in case
+    return "builtin" not in case and not sc.has_ctrl(case)
 
 
 def run_impl(case):
